@@ -160,18 +160,14 @@ theorem shrinkClauses_post {env : Env} {K n : Nat} {rec : Rec} (hK : 1 ≤ K) (h
 theorem lift_post {env : Env} {K n : Nat} {rec : Rec} (hrec : RecPost K n rec) (s st r st')
     (hs : sizeStmt s ≤ n) (h : lift env rec s st = .ok (r, st')) :
     ∃ new, st'.lifted = new ++ st.lifted ∧ axSizeStmt r = 1 ∧ defsSize new ≤ K * sizeStmt s + 1 := by
-  simp only [lift] at h
-  split at h
-  · cases h
-  · rename_i body st3 hb
-    simp at h
-    obtain ⟨rfl, rfl⟩ := h
-    obtain ⟨n1, hl1, hz1, _⟩ := hrec _ _ body st3 (by rw [sizeStmt_subst]; exact hs) hb
-    simp only [freshIdentifier, liftFresh_lifted] at hl1
-    refine ⟨⟨_, _, body⟩ :: n1, by simp only [hl1, List.cons_append]; rfl, by simp [axSizeStmt], ?_⟩
-    simp only [defsSize]
-    rw [sizeStmt_subst] at hz1
-    omega
+  obtain ⟨label, st2, st3, body, _, _, _, _, _, hl2, _, hb, rfl, rfl⟩ := lift_label h
+  obtain ⟨n1, hl1, hz1, _⟩ := hrec _ _ body st3 (by rw [sizeStmt_subst]; exact hs) hb
+  rw [hl2] at hl1
+  refine ⟨⟨shrinkIdentifier label, shrinkContext env.codata (liftFresh (tfvStmt s []) st).1.1, body⟩ :: n1,
+    by simp only [hl1, List.cons_append], by simp [axSizeStmt], ?_⟩
+  simp only [defsSize]
+  rw [sizeStmt_subst] at hz1
+  omega
 
 
 theorem isLeaf_size {s} (h : isLeafStmt s = true) : sizeStmt s ≤ 3 := by
@@ -562,41 +558,43 @@ theorem shrinkStmt_post {env : Env} {K : Nat} (hK : xtorBound env + 1 ≤ K) :
     exact shrinkStmtStep_post hK (shrinkStmt_post hK fuel) s st r st' hs h
 
 /-- C19-T3 for one definition: the image of the definition plus everything lifted out of it -/
-theorem shrinkDef_size (d : Core.FsDef) (data codata : List Core.TypeDecl) (maxId : Nat) (defs m)
-    (h : shrinkDef d data codata maxId = .ok (defs, m)) :
+theorem shrinkDef_size (d : Core.FsDef) (data codata : List Core.TypeDecl) (used : List Core.Ident)
+    (maxId : Nat) (defs u m) (h : shrinkDef d data codata used maxId = .ok (defs, u, m)) :
     defsSize defs ≤ (max (maxXtors data) (maxXtors codata) + 1) * (sizeStmt d.body + 1) := by
   simp only [shrinkDef] at h
   split at h
   · cases h
   · rename_i body st hb
     simp at h
-    obtain ⟨rfl, rfl⟩ := h
+    obtain ⟨rfl, rfl, rfl⟩ := h
     have hK : xtorBound ⟨data, codata, d.name.name⟩ + 1 ≤ max (maxXtors data) (maxXtors codata) + 1 := by
       simp [xtorBound]
-    obtain ⟨nw, hl, hz, _⟩ := shrinkStmt_post hK (sizeStmt d.body + 1) d.body ⟨maxId, []⟩ body st (by omega) hb
+    obtain ⟨nw, hl, hz, _⟩ := shrinkStmt_post hK (sizeStmt d.body + 1) d.body ⟨maxId, used, []⟩ body st
+      (by omega) hb
     simp only [List.append_nil] at hl
     simp only [defsSize, hl, Nat.mul_add]
     omega
 
-theorem shrinkDefs_size (data codata : List Core.TypeDecl) : ∀ (ds : List Core.FsDef) (maxId : Nat) (defs m),
-    shrinkDefs data codata ds maxId = .ok (defs, m) →
+theorem shrinkDefs_size (data codata : List Core.TypeDecl) :
+    ∀ (ds : List Core.FsDef) (used : List Core.Ident) (maxId : Nat) (defs u m),
+    shrinkDefs data codata ds used maxId = .ok (defs, u, m) →
     defsSize defs ≤ (max (maxXtors data) (maxXtors codata) + 1) * fsDefsSize ds
-  | [], _, defs, m, h => by
+  | [], _, _, defs, u, m, h => by
     simp [shrinkDefs] at h
-    obtain ⟨rfl, rfl⟩ := h
+    obtain ⟨rfl, rfl, rfl⟩ := h
     simp [defsSize]
-  | d :: ds, maxId, defs, m, h => by
+  | d :: ds, used, maxId, defs, u, m, h => by
     simp only [shrinkDefs] at h
     split at h
     · cases h
-    · rename_i d1 m1 h1
+    · rename_i d1 u1 m1 h1
       split at h
       · cases h
-      · rename_i d2 m2 h2
+      · rename_i d2 u2 m2 h2
         simp at h
-        obtain ⟨rfl, rfl⟩ := h
-        have := shrinkDef_size d data codata maxId d1 m1 h1
-        have := shrinkDefs_size data codata ds m1 d2 m2 h2
+        obtain ⟨rfl, rfl, rfl⟩ := h
+        have := shrinkDef_size d data codata used maxId d1 u1 m1 h1
+        have := shrinkDefs_size data codata ds u1 m1 d2 u2 m2 h2
         simp only [defsSize_append, fsDefsSize, Nat.mul_add] at *
         omega
 
@@ -616,10 +614,10 @@ theorem shrinkProg_size (p : Core.FsProg) (q : AxCut.Prog) (h : shrinkProg p = .
     · cases h
     · split at h
       · cases h
-      · rename_i defs m hd
+      · rename_i defs u m hd
         simp at h
         subst h
-        have := shrinkDefs_size _ _ p.defs p.maxId defs m hd
+        have := shrinkDefs_size _ _ p.defs _ p.maxId defs u m hd
         simp only [maxXtors_append, maxXtors, contInt, List.length_cons, List.length_nil] at this
         have e : max (max (maxXtors p.dataTypes) (max (0 + 1) 0)) (maxXtors p.codataTypes) =
             max (max (maxXtors p.dataTypes) (maxXtors p.codataTypes)) 1 := by omega
